@@ -11,7 +11,7 @@ use serde_json::json;
 pub const HEADER: &str = "From BW Require Import SpecC09.";
 const OPS: [&str; 5] = ["<", "<=", "==", ">=", ">"];
 const OPC: [&str; 5] = ["OLt", "OLe", "OEq", "OGe", "OGt"];
-const WS: [&str; 5] = ["", " ", "  ", "\t", " \t "];
+const WS: [&str; 8] = ["", " ", "  ", "\t", " \t ", "", "\u{a0}", "\u{2003} "];
 const BLANKS: [&str; 5] = ["", " ", "   ", "\t", " \t"];
 const WORDS: [&str; 6] = ["k1", "k2", "k3", "z9", "w_w", "q"];
 const INDENTS: [&str; 4] = ["", "  ", "\t", " "];
@@ -55,7 +55,15 @@ pub fn generate(rng: &mut Rng, idx: usize, tier: Tier) -> CaseOut {
             (rng.below(5), rng.below(7) as u64, rng.below(8))
         };
         let sev = if rng.chance(1, 4) { Some(*rng.pick(SEVERITIES)) } else { None };
-        let expr = format!("{}{}{}{}{}", rng.pick(&WS), OPS[op], rng.pick(&WS), n, rng.pick(&WS));
+        // numeral forms usize::from_str accepts: plain, explicit '+', leading zeros (C09_numeral_shape)
+        let numeral = match rng.below(8) { 0 => format!("+{}", n), 1 => format!("00{}", n), 2 => format!("+0{}", n), _ => n.to_string() };
+        if !numeral.starts_with(|c: char| c.is_ascii_digit() && c != '0') && numeral != "0" {
+            tags.push("numeral:plus-or-zeros".into());
+        }
+        let expr = format!("{}{}{}{}{}", rng.pick(&WS), OPS[op], rng.pick(&WS), numeral, rng.pick(&WS));
+        if !expr.is_ascii() {
+            tags.push("unicode-whitespace".into());
+        }
         let mut attrs: Vec<(&str, &str)> = vec![("line-count", expr.as_str())];
         let name = format!("b{}", bi);
         if rng.chance(1, 2) {
